@@ -608,6 +608,8 @@ func (prop) Run(line string) core.Outcome {
 		return runHist(line, f[1])
 	case len(f) == 3 && f[0] == "cas":
 		return runCAS(f[1], f[2])
+	case len(f) == 2 && f[0] == "idrace":
+		return runIDRace(f[1])
 	}
 	if len(f) >= 2 {
 		if o, ok := runStrOp(f); ok {
@@ -901,5 +903,89 @@ func runCAS(ks, ns string) core.Outcome {
 			What: fmt.Sprintf("%d clients x %d conditional increments: %d writes were acknowledged (200), %d refused (412), %d other; the counter ends at %d", k, n, successes, conflicts, other, final)})
 	}
 	o.Impl = "cas " + strconv.Itoa(final)
+	return o
+}
+
+// runIDRace samples, on the real handler, what Regions.lean says about /id/ requests: the index
+// read (handleConfigID) and the write (changeConfig after the internal redirect) are two critical
+// sections. One goroutine POSTs through /id/x/v, another keeps inserting an object in front of the
+// tagged one and deleting it again; an insert that slips between the two sections makes the write
+// land in the inserted object. The answer line is constant (the race is not a function of the
+// input); a hit only shows as tag `idrace:hit`, and what is asserted is what holds in every
+// interleaving: each state is a document in which "x" tags exactly one object.
+func runIDRace(ns string) core.Outcome {
+	n, err := strconv.Atoi(ns)
+	if err != nil || n < 1 || n > 2000 || !allDigits(ns) {
+		return core.Outcome{Impl: "bad-op"}
+	}
+	reset()
+	o := core.Outcome{Impl: "idrace", Tags: []string{"idrace"}}
+	js := map[string]string{"Content-Type": "application/json"}
+	if r := do("POST", "/config/", []byte(`{"apps":{"c12":{"a":[{"@id":"x","v":0}]}}}`), js); r.status != 200 {
+		o.Impl = "idrace setup " + strconv.Itoa(r.status)
+		return o
+	}
+	var wg sync.WaitGroup
+	stop := make(chan struct{})
+	hits, stale, bad := 0, 0, ""
+	wg.Add(2)
+	go func() {
+		defer wg.Done()
+		defer close(stop)
+		for i := 1; i <= n; i++ {
+			// a stale resolution can also point past the end of the array (the inserted object was
+			// deleted between the two sections): answered 500 "array index out of bounds"
+			if r := do("POST", "/id/x/v", []byte(strconv.Itoa(i)), js); r.status != 200 {
+				if r.status == 500 && strings.Contains(string(r.body), "array index out of bounds") {
+					stale++
+					continue
+				}
+				bad = fmt.Sprintf("POST /id/x/v answered %d %s", r.status, r.body)
+				return
+			}
+		}
+	}()
+	go func() {
+		defer wg.Done()
+		for {
+			select {
+			case <-stop:
+				return
+			default:
+			}
+			do("PUT", "/config/apps/c12/a/0", []byte(`{"f":1}`), js)
+			if g := get("/config/apps/c12/a/0"); strings.Contains(string(g.body), `"v"`) && strings.Contains(string(g.body), `"f"`) {
+				hits++
+			}
+			do("DELETE", "/config/apps/c12/a/0", nil, nil)
+		}
+	}()
+	done := make(chan struct{})
+	go func() { wg.Wait(); close(done) }()
+	select {
+	case <-done:
+	case <-time.After(120 * time.Second):
+		o.Failures = append(o.Failures, core.Failure{Case: "idrace " + ns, Class: "request-hung", What: "id race run did not finish"})
+		return o
+	}
+	if hits > 0 {
+		o.Tags = append(o.Tags, "idrace:hit")
+	}
+	if stale > 0 {
+		o.Tags = append(o.Tags, "idrace:stale-index")
+	}
+	g := get("/config/apps/c12/a")
+	v, derr := decodeJSON(g.body)
+	arr, _ := v.([]any)
+	tagged := 0
+	for _, e := range arr {
+		if m, ok := e.(map[string]any); ok && m["@id"] == "x" {
+			tagged++
+		}
+	}
+	if bad != "" || derr != nil || tagged != 1 {
+		o.Failures = append(o.Failures, core.Failure{Case: "idrace " + ns, Class: "id-race-corrupted-document",
+			What: fmt.Sprintf("after concurrent /id/ writes and inserts: %s; /config/apps/c12/a = %s", bad, g.body)})
+	}
 	return o
 }
